@@ -112,7 +112,9 @@ Step ==
        [] e.e = "EV" -> /\ viol' = viol \cup Also17(IF e.note # "nil" /\ ~Cfg.fault THEN {"C07"} ELSE {})
                                         \cup (IF Cfg.fault /\ e.note \notin {"nil", "ErrDividerBad"} THEN {"C15"} ELSE {})
                         /\ Keep
-       [] e.e = "Deadline" -> viol' = viol \cup {IF Cfg.fault THEN "C15" ELSE "C07"} /\ Keep
+       \* no termination although everything is closed and released; what is still undelivered then is lost (C02) / never delivered (C06)
+       [] e.e = "Deadline" -> viol' = viol \cup {IF Cfg.fault THEN "C15" ELSE "C07"}
+                                          \cup (IF ~Cfg.fault /\ ~AllDelivered THEN {"C02", "C06"} ELSE {}) /\ Keep
        [] e.e = "RelPanic" -> viol' = viol \cup {IF Cfg.fault THEN "C15" ELSE "C07"} /\ Keep   \* terminated with an unreleased item
        [] e.e = "Starved" -> viol' = viol \cup {"C06"} /\ Keep
        [] e.e = "QA" -> \* only priority e.p had data, nothing else in flight, nothing released: it must hold all H handlers
